@@ -197,3 +197,100 @@ PROPS["C36"] = dict(
                  "replacement tokens contain no '$' (checked by the translator), so replace_all inserts them literally"],
     allowed_axioms=[],
 )
+
+PROPS["C02"] = dict(
+    corr_module="Corr.C02",
+    streams={"proto": dict(runner="C02_proto_run", in_t="(list fsop)", out_t="N", shard=200, imports=["Model.FsProto"])},
+    n_quick=36, n_thorough=100000,
+    harness_timeout=3400,
+    rule="(1) protocol stream: every API call of fixed histories is run under strace -y, its file-system operations on the memory / staging file / directory are mapped to the model's fsop alphabet and classified by the Coq recognizers (log append / staged commit / in place), compared with the protocol the call must follow; "
+         "(2) kill stream: a child process runs the history and is killed (strace inject SIGKILL, syscall not executed) at its K-th mutating syscall (quick: a random sample of K per history, thorough: every K), the survivor is opened and must equal the state after the acknowledged ops or that plus the in-flight op; "
+         "non-trivial = the kill hit after the memory existed / the call is not a no-op; distinct by (history, K) resp. (history, op index)",
+    level_text="Protocol-level theorems (any writes, any crash point): the staged commit and the log append are crash-atomic; tied to the code by classifying the real syscall trace of every call with the model's recognizers, and explored on the real code by kill-point enumeration with survivor checks. Partial: in-place paths (log growth, vacuum, replay, create) are classified as such and covered by enumeration only.",
+    level_note="Trusted: Coq kernel + vm_compute; strace's syscall injection (the K-th matching syscall is replaced by SIGKILL) and -y path decoding; the mapping from syscalls to fsop in harness/src/crash.rs; byte contents, Tantivy/zstd and kernel behaviour are outside the model.",
+    trusted_base=["strace -f -y -e inject=...:signal=SIGKILL:when=K", "syscall-to-fsop mapping in harness/src/crash.rs"],
+    assumptions=["a killed syscall has no effect; completed syscalls are visible to the next open (process crash, not power loss)"],
+    allowed_axioms=[],
+)
+
+PROPS["C38"] = dict(
+    corr_module="Corr.C38",
+    streams={
+        "kernel": dict(runner="C38_run", in_t="C38_in", out_t="C38_out", shard=200),
+        "scalar": dict(runner="C38_scalar_run", in_t="C38_in", out_t="(N * N)", shard=200),
+        "ops": dict(runner="C38_ops_run", in_t="(N * N)", out_t="(N * N * N * N)", shard=800),
+    },
+    level_text="Unbounded theorems over ONE carrier-generic, line-by-line model of simd::l2_distance_squared_simd / l2_distance_simd (8 lanes of +0.0, lane-wise sub/mul/add without fusing, horizontal sum folded from -0.0 in lane order, remainder in index order, sqrt; debug_assert on lengths) and of the scalar fallback. (i) over any carrier whose addition is a commutative monoid (every commutative ring; instantiated at Z) and for every length the kernel IS the scalar definition sum (a_i-b_i)^2, by induction on chunks -- so on floats the two differ only by the order of the same rounded additions; (ii) at IEEE binary32 (Flocq, round to nearest even) the kernel is symmetric bit for bit for ALL inputs of all lengths, no hypothesis, from two IEEE facts proved from Flocq's definitions (|fl(x-y)| = |fl(y-x)|, fl(d*d) depends only on |d|); (iii) equal vectors of finite components give exactly +0.0, squared and rooted; (iv) finite components give a result that is not NaN and has a clear sign bit, even when intermediates overflow. The quantitative closeness to the scalar definition is NOT proved.",
+    level_note="Partial: 'equals the scalar distance up to rounding' is proved structurally (same terms, exact-arithmetic equality for every length) but the numeric bound |simd - scalar| <= 2*gamma_{n+1}*scalar (gamma_k = k*2^-24/(1-k*2^-24)) is only TESTED on every generated case by the harness oracle. Trusted: Coq kernel + vm_compute; Flocq 4 BinarySingleNaN binary32 as the meaning of f32 (one NaN: sign/payload of NaN results not modelled, all NaNs compared as 0x7fc00000) with the four standard-library axioms of its reals; hand-written model tied by bit-exact differential runs (kernel, scalar text, single hardware operations); the scalar fallback is compiled only without feature simd, so its text is copied into the harness.",
+    n_quick=900, n_thorough=20000,
+    rule="pairs of f32 vectors as u32 bit patterns: every length 0..100 once per run (every remainder mod 8, 0-12 chunks) plus random lengths 0-160 biased to multiples of 8 +-1; "
+         "components from small integers -8..8, the grid k/2^23-1 in [-1,1], 24-bit mantissas times 2^-60..2^60, subnormals (0, 1 ulp, largest), normals 2^-76..2^-60 (squares underflow), 2^61..2^66 (squares overflow), mixtures, "
+         "arbitrary bit patterns (NaN, +-inf, -0.0, +-MAX), a tie-prone grid; shapes: independent, equal, one component differs, b = a(1 +- 2^-k); 6 unequal-length pairs (debug_assert panic); "
+         "compared bit for bit with the model: squared distance and distance (stream kernel), the scalar definition and its root (stream scalar), hardware +,-,*,sqrt on pairs of bit patterns (stream ops); "
+         "oracle on the implementation alone: distance = sqrt(squared), d(a,b) = d(b,a) bit for bit, +0.0 on equal finite vectors, no NaN / sign bit on finite inputs, |simd - scalar| <= 2*gamma_{n+1}*scalar (and the rooted analogue), exact integer sum on integer vectors, VecIndex::search reports the same distance; "
+         "non-trivial = at least one full chunk and a non-empty remainder; distinct by BLAKE3 of both vectors",
+    trusted_base=["f32 arithmetic = Flocq BinarySingleNaN.binary_float 24 128 with mode_NE (Bplus, Bminus, Bmult, Bsqrt); tied to the hardware by stream ops on every run",
+                  "wide 1.1.1 f32x8 add/sub/mul are lane-wise IEEE operations (SSE2 or AVX), no fused multiply-add, no flush-to-zero (checked by the subnormal cases)",
+                  "<f32 as Sum>::sum folds from -0.0 (std of the pinned toolchain 1.90 and of 1.95; checked by the length-0 case of stream scalar)",
+                  "debug profile: debug_assert_eq!(a.len(), b.len()) panics; in release unequal lengths index out of bounds or ignore the tail (not modelled)"],
+    assumptions=["(iii) and (iv): all components finite (inf - inf is NaN: Example C38_finite_needed)",
+                 "(ii) bit for bit modulo the payload/sign of a NaN result",
+                 "closeness to the scalar definition: tested bound 2*gamma_{n+1}, not a theorem"],
+    allowed_axioms=["ClassicalDedekindReals.sig_not_dec", "ClassicalDedekindReals.sig_forall_dec",
+                    "FunctionalExtensionality.functional_extensionality_dep", "Classical_Prop.classic"],
+)
+
+PROPS["C27"] = dict(
+    corr_module="Corr.C27",
+    streams={
+        "query": dict(runner="C27_run", in_t="C27_in", out_t="C27_out", shard=15),
+        "legacy": dict(runner="C27_legacy_run", in_t="C27_legacy_in", out_t="(list C27_answer)", shard=40),
+        "persist": dict(runner="C27_persist_run", in_t="(list mop)", out_t="(list C27_snapshot)", shard=20,
+                        imports=["Model.Memories"]),
+    },
+    level_text="Unbounded theorems over the model of MemoriesTrack (add_card, SlotIndex incl. the legacy fallback scan, get_cards, get_current, get_at_time) for every track state, entity, slot and time: get_at_time never returns a card after t or a retraction; at or beyond the latest card it equals get_current; it returns exactly the latest eligible card (ties on the effective time won by the card added last) -- resting on a generic, reusable proof that a stable sort under a total preorder is a sorted stable permutation and is unique (Base/SortFacts.v; insertion and merge sort). Persistence of cards and mesh across commit/close/reopen is proved on a value-level model of commit/drop/open (partial: byte codecs not modelled) and refuted in one narrow class (a card with a non-finite confidence); a committed card set is also shown to survive a process death with uncommitted frame records (open loads the tracks before replaying the log).",
+    level_note="Trusted: Coq kernel + vm_compute; hand-written model of src/types/memories_track.rs, memory_card.rs, logic_mesh.rs (merge, sort on serialize) and of the card/mesh part of commit/drop/open, tied by differential runs; ASCII strings only (Unicode to_lowercase not modelled); persistence level is PARTIAL: serde_json/zstd/bincode/TOC bytes are not modelled, only their effect on values (checked on real files each run); harness and translator.",
+    n_quick=200, n_thorough=4000,
+    rule="query: 0-60 cards over 1-4 entity x 1-3 slot spellings (case variants, names containing ':'), all four version relations, "
+         "event/document dates present or absent, times from small pools (many ties), i64 extremes, through add_card/add_cards "
+         "(a quarter also through serialize/deserialize); each stored slot queried under a random spelling plus absent slots, at every "
+         "distinct effective time, +-1, 0 and i64::MIN/MAX; legacy: tracks read through serde with mixed-case index keys, dangling, "
+         "duplicate and cross-slot ids; persist: 3-14 op histories (put_memory_card(s), mesh node/edge, put_bytes, commit, reopen, "
+         "crash image) on a real Memvid in a tempdir, snapshot of the whole card vector and mesh after every reopen; "
+         "non-trivial = a queried slot holds >= 2 cards (query/legacy) / a reopen happened with cards stored (persist); distinct by BLAKE3 of the input term",
+    trusted_base=["serde_json + zstd (memories track) and bincode + zstd (logic mesh) byte codecs are not modelled: the model states their effect on values, the persist stream checks it on real files",
+                  "Unicode lower-casing is not modelled: entity/slot strings are ASCII in model and runs"],
+    assumptions=["card ids are unbounded naturals in the model (next_id is a u64; 2^64 cards are out of reach)",
+                 "'latest' = greatest effective time (event_date, else document_date, else created_at), ties won by the card added last; a retraction card is skipped and hides nothing",
+                 "the slot identity is the lower-cased string entity:slot as the code defines it (so (\"a:b\",\"c\") and (\"a\",\"b:c\") are the same slot)"],
+    allowed_axioms=[],
+)
+
+PROPS["C37"] = dict(
+    corr_module="Corr.C37",
+    streams={
+        "cutoff": dict(runner="C37_run", in_t="C37_in", out_t="C37_out", shard=40),
+        "normalize": dict(runner="C37_norm_run", in_t="(list N)", out_t="(list N)", shard=40),
+        "cutoff_nf": dict(runner="C37_run", in_t="C37_in", out_t="C37_out", shard=40),
+        "normalize_nf": dict(runner="C37_norm_run", in_t="(list N)", out_t="(list N)", shard=40),
+    },
+    level_text="Unbounded theorems over a line-by-line model of types::adaptive::find_adaptive_cutoff, its five strategy helpers and normalize_scores. Generic part (any score type, any interpretation of <, + - * /, sqrt, abs, usize->f32, max, min; Flocq-free, no axioms): for every score list and every configuration the call returns without panic and min(min_results, n) <= cut-off <= n (all five strategies, normalization on/off); for the absolute and the relative threshold strategy no result kept beyond the first min_results is below the threshold, the first cut result is below it, the cut-off lies beyond min_results (so it is the least such index), and the label is no_cutoff only when everything is kept; normalize_scores preserves the length and returns 1.0 everywhere when range < EPSILON. binary32 part (Flocq IEEE 754, round-to-nearest-even): 'not below' is '>=' for finite scores and a non-NaN threshold; normalize_scores maps every list of finite scores whose max - min does not overflow to finite values in [0,1] with every maximal score mapped to exactly 1 (any length, subnormals, signed zeros, ties). Model tied to the code by bit-exact differential runs on u32 bit patterns.",
+    level_note="The normalize clause as stated is REFUTED in one class, recorded as known finding F-C37-1 (range-overflow: max - min overflows to +inf, e.g. [3e38, -3e38] -> [NaN, 0]); proved outside it (C37_normalize_ok_outside_known), refutation witness by vm_compute (C37_normalize_ok_refuted), and the class is exact: every member fails (C37_known_class_always_fails). Theorems (1)-(4) of Properties/C37.v have an EMPTY assumption list; the binary32 theorems carry exactly Flocq's four standard-library axioms (classical reals). Trusted: Coq kernel + vm_compute; Flocq's binary32 as the meaning of Rust f32 arithmetic (+ - * / sqrt abs, `as f32`, comparisons; x.powi(2) modelled as x*x; f32::max/min modelled as 'ignore NaN, else the larger/smaller', zero sign canonicalised); hand-written model tied by correspondence (cut-off index + trigger label code, normalized scores bit for bit); the percentage printed inside the score_cliff(..%) label is not modelled; harness.",
+    n_quick=400, n_thorough=12000,
+    rule="score lists of 0-60 finite f32 (styles: uniform [0,1), BM25-like, geometric decay with cliffs, dyadic grid with ties, clusters with range below / at / above EPSILON, negative, special values (+-0, EPSILON and neighbours, MIN_POSITIVE, subnormals, +-MAX), magnitudes 2^126..MAX with mixed signs (range overflow), subnormal-only, plateau+drop elbow curves, collinear, arbitrary bit patterns), "
+         "sorted descending (60%), one adjacent swap, ascending, unsorted; all five strategies with parameters sensible / equal to (or one ulp from) a score the strategy compares with / equal to an actual adjacent drop ratio / negative / > 1 / 0 / special; sensitivity 0, negative, 1, up to 5; "
+         "min_results 0, 1, inside, n-1, n, n+1, n+2, usize::MAX; normalize on/off; fixed witnesses (overflow edge 2^127 vs 2^127-1ulp, range exactly EPSILON and one ulp below, collinear lists pinning the elbow loop bound, the crate's documented examples); "
+         "streams cutoff / normalize compare finite NaN-free inputs, streams cutoff_nf / normalize_nf (clearly labelled) add NaN (several payloads) and +-inf among scores and parameters; every call under catch_unwind; "
+         "compared with the model: Ok(cut-off, trigger code) or Panic, and normalized scores bit for bit (NaN printed as 0x7FC00000, -0 as +0 in outputs only); "
+         "impl oracle (independent of the model): index bounds on every case; threshold clauses on every absolute/relative case (>= in the finite streams, not-below in the nf streams) with the threshold recomputed in f32; [0,1] and max->1.0 on every finite normalize case; "
+         "non-trivial = n > min_results (a strategy runs) / some output differs from 1.0; distinct by BLAKE3 of the input term",
+    trusted_base=["Rust f32 arithmetic = Flocq binary32 with round-to-nearest-even (no FMA contraction, no x87 excess precision: x86-64 SSE2 / aarch64); `x.powi(2)` = x*x; `usize as f32` = nearest-even integer conversion",
+                  "f32::max / f32::min: NaN operands are ignored; for (+0,-0) std leaves the result open, the model keeps the accumulator and the comparison prints -0 as +0 in normalize outputs (the sign of a zero never reaches a comparison or a divisor in this code)",
+                  "the trigger label is compared as a code; the number inside score_cliff(..%) is not modelled",
+                  "AdaptiveConfig.enabled and .max_results are not read by find_adaptive_cutoff (not modelled)"],
+    assumptions=["normalize clause: scores finite (no NaN / +-inf) and max - min does not overflow binary32 (known class F-C37-1 = finite scores with max - min = +inf; refuted inside, proved outside)",
+                 "'at or above the threshold' (>=) needs finite scores, no range overflow when normalization is on, and a non-NaN threshold; the NaN-proof form 'not below the threshold' holds with no hypothesis at all",
+                 "the relative threshold is normalized[0] * min_ratio computed in binary32 (as the code does), not the real product"],
+    allowed_axioms=["ClassicalDedekindReals.sig_not_dec", "ClassicalDedekindReals.sig_forall_dec",
+                    "FunctionalExtensionality.functional_extensionality_dep", "Classical_Prop.classic"],
+)
